@@ -414,11 +414,11 @@ FINAL = {"chain": (FINISHED, [FINISHED, FINISHED, FINISHED]), "retry": (FINISHED
          "fail": (FAILED, [FINISHED, FAILED, CANCELED]), "big": (FINISHED, [FINISHED, FINISHED])}
 
 # boundaries of the shutdown path after the final status has reached the history file
-AFTER_FINAL = ("openat:history-reread", "openat:history-compacted", "write:compacted-line", "unlinkat:history-file",
-               "fsync:compacted", "fsync:history", "close:compacted", "close:history")
+AFTER_FINAL = ("openat:history-reread", "unlinkat:history-tmp", "openat:history-compacted", "write:compacted-line",
+               "renameat:history-tmp", "unlinkat:history-file", "fsync:compacted", "fsync:history", "close:compacted", "close:history")
 
-TRACE = "write,openat,unlinkat,socket,connect,bind,listen,accept4,fsync,mkdirat,close,read,epoll_ctl,clone,clone3,exit_group"
-INJECTABLE = ["write", "openat", "unlinkat", "socket", "connect", "bind", "listen", "fsync", "mkdirat", "close", "read", "epoll_ctl"]
+TRACE = "write,openat,unlinkat,renameat,flock,socket,connect,bind,listen,accept4,fsync,mkdirat,close,read,epoll_ctl,clone,clone3,exit_group"
+INJECTABLE = ["write", "openat", "unlinkat", "renameat", "flock", "socket", "connect", "bind", "listen", "fsync", "mkdirat", "close", "read", "epoll_ctl"]
 
 
 class Crash:
@@ -515,26 +515,30 @@ class Crash:
         case["disk_state"] = self.disk_state(h) if case.get("killed") else None
         if how == "sys":
             # the label comes from the strace log; it counts only together with what is on disk
-            case["after_final"] = case["boundary"] in AFTER_FINAL and case["disk_state"] in ("A", "B", "M", "C", "D")
+            case["after_final"] = case["boundary"] in AFTER_FINAL and case["disk_state"] in ("A", "T0", "Tm", "T1", "C", "D")
         return self.after_kill(case, h, scen)
 
     def disk_state(self, h):
-        """the compaction states a kill can leave: A original only, B original + empty twin, M original + twin whose line is
-        not complete (no newline yet), C original + written twin, D twin only, - nothing"""
-        orig, twin, tpath = None, None, None
+        """the compaction states a kill can leave (since eb925d1: <twin>.tmp is written, closed, renamed to <twin>, then the
+        original is unlinked): A original only, T0 original + empty tmp, Tm original + tmp whose line is not complete (no
+        newline yet), T1 original + complete tmp, C original + published twin, D twin only, - nothing"""
+        orig, twin, tmp, tpath = None, None, None, None
         try:
             for root, _, files in os.walk(os.path.join(h, "data")):
                 for f in files:
-                    if f.endswith("_c.dat"):
+                    if f.endswith("_c.dat.tmp"):
                         tpath = os.path.join(root, f)
-                        twin = os.path.getsize(tpath)
+                        tmp = os.path.getsize(tpath)
+                    elif f.endswith("_c.dat"):
+                        twin = os.path.getsize(os.path.join(root, f))
                     elif f.endswith(".dat"):
                         orig = os.path.getsize(os.path.join(root, f))
-            if twin and orig is not None:
+            if tmp is not None and twin is None and orig is not None:
+                if tmp == 0:
+                    return "T0"
                 with open(tpath, "rb") as fh:
                     fh.seek(-1, 2)
-                    if fh.read(1) != b"\n":
-                        return "M"
+                    return "T1" if fh.read(1) == b"\n" else "Tm"
         except OSError:
             return "?"
         if orig is None and twin is None:
@@ -543,19 +547,20 @@ class Crash:
             return "A"
         if orig is None:
             return "D"
-        return "B" if twin == 0 else "C"
+        return "C"
 
     def kill_in_state(self, scen, target):
-        """SIGKILL while the history directory is in compaction state `target` (B, C or D): the run is slowed down by strace
-        (every write / unlinkat / fsync of the process is delayed on entry), an observer polls the directory and kills the
-        run's process when it sees the state.  What was really left on disk is recorded (`disk_state`)."""
+        """SIGKILL while the history directory is in compaction state `target` (T0, Tm, T1, C or D): the run is slowed down by
+        strace (every write / fsync / renameat / unlinkat of the process is delayed on entry), an observer polls the directory
+        and kills the run's process when it sees the state.  What was really left on disk is recorded (`disk_state`)."""
         h = self.home(scen)
         env = self.env(h)
         case = {"scenario": scen, "how": "state", "arg": target, "home": os.path.basename(h), "after_final": True}
         log = os.path.join(h, "strace.log")
         delay = "delay_enter=15000"
-        p = subprocess.Popen(["strace", "-f", "-b", "execve", "-o", log, "-e", "trace=write,unlinkat,fsync",
+        p = subprocess.Popen(["strace", "-f", "-b", "execve", "-o", log, "-e", "trace=write,unlinkat,fsync,renameat",
                               "-e", "inject=write:" + delay, "-e", "inject=unlinkat:" + delay, "-e", "inject=fsync:" + delay,
+                              "-e", "inject=renameat:" + delay,
                               self.bd, "start", "-q", self.dag(h, scen)], env=env, stdout=subprocess.DEVNULL, stderr=subprocess.DEVNULL,
                              start_new_session=True)
         tracee = None
@@ -659,7 +664,7 @@ def _walk(log):
         killed = ln.rstrip().endswith("= ?")
         kind = None
         if sysc == "openat":
-            hm = re.search(r"\.\d{8}\.\d\d:\d\d:\d\d\.\d{3}\.[^/\"]*?(_c)?\.dat\"", args)
+            hm = re.search(r"\.\d{8}\.\d\d:\d\d:\d\d\.\d{3}\.[^/\"]*?(_c)?\.dat(\.tmp)?\"", args)
             if hm and hm.group(1):
                 kind = "hist_c"
             elif hm:
@@ -701,7 +706,12 @@ def _walk(log):
             if sysc == "close" and r and not killed:
                 fds.pop(int(r.group(1)), None)
         elif sysc == "unlinkat":
-            label = "unlinkat:history-file" if ".dat" in args else ("unlinkat:socket" if ".sock" in args else "unlinkat:other")
+            label = ("unlinkat:history-tmp" if ".dat.tmp" in args else "unlinkat:history-file" if ".dat" in args
+                     else ("unlinkat:socket" if ".sock" in args else "unlinkat:other"))
+        elif sysc == "renameat":
+            label = "renameat:history-tmp" if ".dat.tmp" in args else "renameat:other"
+        elif sysc == "flock":
+            label = "flock:dag-file"
         elif sysc == "mkdirat":
             label = "mkdirat:" + ("data-dir" if "/data" in args else "log-dir" if "/logs" in args else "other")
         elif sysc in ("connect", "bind"):
@@ -814,7 +824,7 @@ def enumerate_points(counts, tier, rng):
         mx = counts.get(sysc, 0)
         ks = list(range(1, mx + 1))
         if tier == "quick":
-            cap = {"write": 12, "openat": 8, "unlinkat": 3, "fsync": 3, "mkdirat": 4, "close": 6, "read": 4, "epoll_ctl": 3}.get(sysc, 2)
+            cap = {"write": 12, "openat": 8, "unlinkat": 4, "fsync": 3, "mkdirat": 4, "close": 6, "read": 4, "epoll_ctl": 3}.get(sysc, 2)
             if len(ks) > cap:
                 step = len(ks) / float(cap)
                 off = rng.below(max(1, int(step)))
@@ -853,21 +863,21 @@ def run_crash(ctx, bd, helper, tier, rng, workers=8):
     with ThreadPoolExecutor(max_workers=workers) as ex:
         for c in ex.map(lambda j: cr.kill_case(*j), jobs):
             cases.append(c)
-        # kills INSIDE Close's compaction, by the state of the history directory (B: twin created and still empty, C: twin written,
-        # original not yet unlinked, D: original unlinked)
+        # kills INSIDE Close's compaction, by the state of the history directory (T0: tmp created and still empty, Tm: tmp mid-write,
+        # T1: tmp complete, not yet renamed, C: twin published next to the original, D: original unlinked)
         reps = 1 if tier == "quick" else 4
         sj = [(scen, st) for scen in SCENARIOS if info[scen]["reference_ok"] and (tier != "quick" or scen in ("chain", "big", "retry"))
-              for st in (("B", "M", "C", "D") if scen == "big" else ("B", "C", "D")) for _ in range(reps)]
+              for st in (("T0", "Tm", "T1", "C", "D") if scen == "big" else ("T0", "T1", "C", "D")) for _ in range(reps)]
         for c in ex.map(lambda j: cr.kill_in_state(*j), sj):
             cases.append(c)
     hit = {(c["scenario"], c.get("boundary")) for c in cases if c.get("killed")}
     states = {}
     for c in cases:
-        if c.get("killed") and c.get("disk_state") in ("B", "M", "C", "D"):
+        if c.get("killed") and c.get("disk_state") in ("T0", "Tm", "T1", "C", "D"):
             k = "%s/%s" % (c["scenario"], c["disk_state"])
             states[k] = states.get(k, 0) + 1
     info["shutdown_boundaries"] = {"aimed_at": sorted({"%s/%s" % (a, b) for a, b, _, _ in wanted}),
                                    "hit": sorted({"%s/%s" % (a, b) for a, b, _, _ in wanted if (a, b) in hit}),
-                                   "compaction_states_left_by_a_kill (B twin empty, M twin mid-write, C twin written + original, D twin only)": states}
+                                   "compaction_states_left_by_a_kill (T0 tmp empty, Tm tmp mid-write, T1 tmp complete, C twin + original, D twin only)": states}
     cr.cleanup()
     return cases, info
